@@ -249,6 +249,13 @@ def render_error_item(e):
         "too_many_args0": ["void g0() { }", "void fe() {", "g0(1);", "}"],
         "wrong_return0": ["void fe() {", "return 3;", "}"],
         "pest0": ["char okq;", "9bad;"],
+        "if_undef": ["#if NOT_DEFINED_ANYWHERE"],
+        "elif_undef": ["#if 0", "#elif NOT_DEFINED_ANYWHERE", "#endif"],
+        "if_trailing": ["#if 1 1"],
+        "cond_partial": ["void fv() { }", "void fe() {", "  if (fv()) X = 1;", "}"],
+        "cond_partial0": ["void fv() { }", "void fe() {", "if (fv()) X = 1;", "}"],
+        "arith_partial": ["void fv() { }", "void fe() {", "  X = fv() + 1;", "}"],
+        "arith_partial0": ["void fv() { }", "void fe() {", "X = fv() + 1;", "}"],
     }[k]
 
 
